@@ -375,26 +375,31 @@ theorem stateless_bfs_dist_eq (ops : List Op) (dels dn de : List Nat) (d : Dir) 
 /-! ### NumEdges -/
 
 /-- `NumEdges` against the edge list, for every history, any tombstones and ANY deleted-id sets (ids that are not
-nodes or edges of the store included): the CSR digraph counts the distinct (start, end) pairs, the triple store
-every triple, a projection exactly the triples of the projected graph; without parallel edges CSR and store agree.
-Two known findings, stated precisely: the store's count ignores `DeleteEdge` (it is `|edges|` whatever `dels`), and
-`adjacencyMapDigraph.NumEdges` returns the NODE count. -/
+nodes or edges of the store included): the adjacency map and the CSR digraph both count the distinct
+(start, end) pairs — hence agree for ALL histories —, the triple store every triple, a projection exactly the
+triples of the projected graph; without parallel edges all of them agree. Known finding, stated precisely: the
+store's count ignores `DeleteEdge` (it is `|edges|` whatever `dels`). -/
 theorem numEdges_eq (ops : List Op) (dels dn de : List Nat) :
     let g := G.ofOps ops
+    (AdjMap.build ops).numEdges = g.pairs.length ∧
     (Csr.ofOps ops).numEdges = g.pairs.length ∧
+    (AdjMap.build ops).numEdges = (Csr.ofOps ops).numEdges ∧
     (tsOf ops dels).numEdges = g.edges.length ∧
     Proj.numEdges ⟨tsOf ops dels, dn, de⟩ = (g.project dn de).edges.length ∧
-    ((g.edges.map (fun e => (e.start, e.stop))).Nodup → (Csr.ofOps ops).numEdges = (tsOf ops dels).numEdges) ∧
-    (AdjMap.build ops).numEdges = (AdjMap.build ops).numNodes := by
+    ((g.edges.map (fun e => (e.start, e.stop))).Nodup →
+      (AdjMap.build ops).numEdges = (tsOf ops dels).numEdges ∧ (Csr.ofOps ops).numEdges = (tsOf ops dels).numEdges) := by
   intro g
   have rc := CsrB.rel_ofOps ops
   have rt := TS.deleteAll_rel (TS.rel_build ops) dels
+  have h0 : (AdjMap.build ops).numEdges = g.pairs.length := AdjMap.numEdges_spec (AdjMap.rel_build ops)
   have h1 : (Csr.ofOps ops).numEdges = g.pairs.length := Csr.numEdges_spec rc
   have h2 : (tsOf ops dels).numEdges = g.edges.length := TS.numEdges_spec rt
-  exact ⟨h1, h2, Proj.numEdges_spec rt dn de, fun hn => by rw [h1, h2, pairs_length_of_nodup hn], rfl⟩
+  exact ⟨h0, h1, h0.trans h1.symm, h2, Proj.numEdges_spec rt dn de,
+    fun hn => ⟨by rw [h0, h2, pairs_length_of_nodup hn], by rw [h1, h2, pairs_length_of_nodup hn]⟩⟩
 
-/-- KNOWN FINDING (C14:adjacencyMapDigraph.NumEdges:returns-node-count): edges 1→2, 1→3 — two edges, `NumEdges() = 3`. -/
-theorem adjmap_numEdges_refuted : ¬ ∀ ops, (AdjMap.build ops).numEdges = (G.ofOps ops).pairs.length := by
+/-- C14:adjacencyMapDigraph.NumEdges:returns-node-count (repaired by hooks/C14-fix2.patch): before the repair
+`NumEdges` returned the NODE count — edges 1→2, 1→3: two edges, `NumEdges() = 3`. -/
+theorem adjmap_numEdges_refuted_old : ¬ ∀ ops, (AdjMap.build ops).numEdgesOld = (G.ofOps ops).pairs.length := by
   intro h
   have := h [.edge 10 1 2, .edge 11 1 3]
   revert this; decide
@@ -558,7 +563,8 @@ example : statelessBFS true (fun n => (tsOf demoOps []).adjacentEdges n .out) .o
 -- a filtered cycle with maxDepth ≤ 0 (the excluded point) exhausts any fuel in the model
 example : tsTraverse true true (fun n => (tsOf demoOps []).adjacentEdges n .out) .out (fun _ => true) 0 50 7 = none := by decide
 example : (Csr.ofOps demoOps).numEdges = 5 ∧ (tsOf demoOps [104]).numEdges = 6 ∧
-          Proj.numEdges ⟨tsOf demoOps [], [5, 77], [100, 999]⟩ = 2 ∧ (AdjMap.build demoOps).numEdges = 5 := by decide
+          Proj.numEdges ⟨tsOf demoOps [], [5, 77], [100, 999]⟩ = 2 ∧ (AdjMap.build demoOps).numEdges = 5 ∧ (AdjMap.build demoOps).numEdgesOld = 5 ∧
+          (AdjMap.build [.edge 10 1 2, .edge 11 1 3, .edge 12 1 2]).numEdges = 2 := by decide
 example : dimensions (AdjMap.build demoOps).nodes (AdjMap.build demoOps).numNodes (fun v => (AdjMap.build demoOps).adjacent v .both) = (5, 3) ∧
           dimensions (Csr.ofOps demoOps).nodes (Csr.ofOps demoOps).numNodes (fun v => (Csr.ofOps demoOps).adjacent v .both) = (5, 4) := by decide
 -- `IsDist` is not vacuous: 5 is at distance 2 from 7, and not at distance 1
